@@ -32,11 +32,22 @@ const (
 	SubmitGenericError
 	SubmitStoredButError // accepted and stored, acknowledgement lost
 	SubmitCanceled
-	NumSubmitAnswers
+	NumSubmitAnswers // the menu of ANSWERS (every call returns at once); checks enumerate 0..NumSubmitAnswers-1
+)
+
+// SubmitNoAnswer: the request is lost — the DA layer gives NO answer at all, neither success nor error (a black-holed
+// connection, a dropped response). Nothing is stored; the call is logged on arrival (Stored 0, Acked 0) and then blocks
+// until its context is done and returns the context's error (inside a synctest bubble virtual time makes a caller's
+// per-attempt deadline cheap; a caller without one stays parked until its context is cancelled).
+// It lies OUTSIDE the 0..NumSubmitAnswers-1 menu on purpose: checks that enumerate that menu are unchanged; a check
+// that wants the lost request in its alphabet enumerates 0..NumSubmitAnswersWithLoss-1.
+const (
+	SubmitNoAnswer           SubmitAnswer = NumSubmitAnswers
+	NumSubmitAnswersWithLoss SubmitAnswer = NumSubmitAnswers + 1
 )
 
 func (a SubmitAnswer) String() string {
-	return [...]string{"accept-all", "accept-prefix-1", "timed-out", "already-in-mempool", "too-big", "generic-error", "stored-but-ack-lost", "canceled"}[a]
+	return [...]string{"accept-all", "accept-prefix-1", "timed-out", "already-in-mempool", "too-big", "generic-error", "stored-but-ack-lost", "canceled", "no-answer"}[a]
 }
 
 type GetAnswer int
@@ -157,6 +168,18 @@ func (c *DAClient) SubmitWithOptions(ctx context.Context, blobs []coreda.Blob, g
 		ans = d.SubmitPolicy(blobs)
 	}
 	c.Fate.Check()
+	if ans == SubmitNoAnswer {
+		call := SubmitCall{Answer: ans}
+		for _, b := range blobs {
+			call.Blobs = append(call.Blobs, append([]byte(nil), b...))
+		}
+		d.mu.Lock()
+		d.Submits = append(d.Submits, call)
+		d.mu.Unlock()
+		<-ctx.Done() // the only way out: the caller's deadline or cancellation
+		c.Fate.Check()
+		return nil, ctx.Err()
+	}
 	d.mu.Lock()
 	defer d.mu.Unlock()
 	call := SubmitCall{Answer: ans}
